@@ -637,8 +637,32 @@ def extra_c19(pid, tier, seed, workdir, known, write_replay):
     sp = subprocess.run([os.path.join(BIN, "faults"), "--same-program", "--cases",
                          write_stream_file([("fixtures",), ("gen", "general", seed, 120 if tier == "quick" else 1500), ("gen", "consts", seed, 40 if tier == "quick" else 500)], os.path.join(workdir, "same.cases"))],
                         stdout=subprocess.PIPE, stderr=subprocess.PIPE, text=True)
+    # the same comparison under option sets with derive switches on (attributes and derive lists are what a formatter is most
+    # likely to rearrange): all four switches with the Rust, glam and nalgebra representations
+    sp_out = sp.stdout
+    opt_cases = write_stream_file([("fixtures",), ("gen", "structs", seed, 40 if tier == "quick" else 400), ("gen", "vertex", seed, 15 if tier == "quick" else 150)], os.path.join(workdir, "same_opts.cases"))
+    for oi in (15, 31, 38):
+        spo = subprocess.run([os.path.join(BIN, "faults"), "--same-program", "--cases", opt_cases], stdout=subprocess.PIPE, stderr=subprocess.PIPE, text=True,
+                             env=dict(os.environ, FAULTS_OPT_INDEX=str(oi)))
+        sp_out += "\n" + spo.stdout
+    # ... and the fault trials once more with all derive switches on
+    ro = subprocess.run([os.path.join(BIN, "faults"), "--cases", cases, "--small", "2", "--large", "1", "--timeout", "30", "--faults", "real,absent,exit1-after-drain,kill-before-read,exit0-drain-empty"],
+                        stdout=subprocess.PIPE, stderr=subprocess.PIPE, text=True, env=dict(os.environ, FAULTS_OPT_INDEX="31"))
+    for line in ro.stdout.split("\n"):
+        if not line.startswith("(trial"):
+            continue
+        t = parse_sexp(line)[0]
+        cid, size, fault, outcome, same = sx(t[1]), t[2], sx(t[3]), t[4], t[5]
+        oc = outcome if isinstance(outcome, str) else outcome[0]
+        ntr += 1
+        key = f"derives-on:{fault}/{size}:{oc}:{same}"
+        table[key] = table.get(key, 0) + 1
+        if oc == "hang":
+            items.append((f"faults#hang-{fault}", f"formatter fault '{fault}' ({size} output, all derive switches on): no result within the timeout", cid, True))
+        elif oc == "ok" and same == "false":
+            items.append((f"faults#different-program-{fault}", f"formatter fault '{fault}' ({size} output, all derive switches on): returned text is not the same program as with the formatter off", cid, True))
     same_counts = {}
-    for line in sp.stdout.split("\n"):
+    for line in sp_out.split("\n"):
         if not line.startswith("(same"):
             continue
         t = parse_sexp(line)[0]
@@ -988,7 +1012,7 @@ C01_SECONDARY = [r"the trait `Copy` cannot be implemented", r"cannot find type",
 def extra_c01(pid, tier, seed, workdir, known, write_replay):
     """rustc (cargo check) on the real generated modules against the real wgpu 24 / bytemuck / encase / glam / serde (harness `batch check`)"""
     n = 1 if tier == "quick" else 10
-    cases = write_stream_file([("fixtures",), ("names", 9 if tier == "quick" else 1, seed), ("entries", 8 if tier == "quick" else 1, seed), ("variants",), ("types", 11 if tier == "quick" else 1, seed), ("gen", "structs", seed, 20 * n), ("gen", "general", seed, 25 * n), ("gen", "vertex", seed, 12 * n),
+    cases = write_stream_file([("fixtures",), ("provoke",), ("names", 9 if tier == "quick" else 1, seed), ("entries", 8 if tier == "quick" else 1, seed), ("variants",), ("types", 11 if tier == "quick" else 1, seed), ("gen", "structs", seed, 20 * n), ("gen", "general", seed, 25 * n), ("gen", "vertex", seed, 12 * n),
                                ("gen", "consts", seed, 12 * n), ("gen", "entries", seed, 12 * n), ("gen", "textures", seed, 8 * n), ("gen", "unicode", seed, 8 * n)],
                               os.path.join(workdir, "c01.cases"))
     case_by_id = {}
@@ -1001,9 +1025,11 @@ def extra_c01(pid, tier, seed, workdir, known, write_replay):
     b = subprocess.run([os.path.join(BIN, "batch"), "check", "--cases", cases, "--opts", opts, "--out", out_path],
                        stdout=subprocess.PIPE, stderr=subprocess.STDOUT, text=True)
     items, counts, nmod = [], {}, 0
+    gen_failed = set()
     optl = [int(x) for x in opts.split(",")]
     # Ext.RustStatic (Lean) evaluated on the facts of the same real modules: driver prop C01S
     pred, static_spec = {}, []
+    naga_invalid = set()      # cases naga's validator rejects: generated only with validation off, outside the property (DESIGN section 2)
     d = subprocess.run([os.path.join(BIN, "dump"), "--opts", opts], stdin=open(cases), stdout=subprocess.PIPE, text=True)
     v = subprocess.run([DRIVER, "C01S"], input=d.stdout, stdout=subprocess.PIPE, text=True)
     benign = {}
@@ -1016,6 +1042,8 @@ def extra_c01(pid, tier, seed, workdir, known, write_replay):
         tags = [tuple((t.split(";") + ["", ""])[:3]) for t in tg if t.startswith("rs")]
         if tags:
             pred[key] = tags
+        if "naga-invalid" in tg:
+            naga_invalid.add(f[2])
         for t in tg:
             if "benign" in t:
                 benign[t] = benign.get(t, 0) + 1
@@ -1033,6 +1061,9 @@ def extra_c01(pid, tier, seed, workdir, known, write_replay):
             t = parse_sexp(line)[0]
             cid, opt, verdict = sx(t[1]), int(t[2]), t[3]
             nmod += 1
+            if cid in naga_invalid:
+                counts["outside:naga-validator-rejects-the-module"] = counts.get("outside:naga-validator-rejects-the-module", 0) + 1
+                continue
             if verdict == "ok":
                 counts["ok"] = counts.get("ok", 0) + 1
                 modules[(cid, opt)] = ("ok", [])
@@ -1043,6 +1074,7 @@ def extra_c01(pid, tier, seed, workdir, known, write_replay):
                 modules[(cid, opt)] = ("permitted", [])
             elif kind == "gen":
                 counts["gen:" + sx(verdict[1])] = counts.get("gen:" + sx(verdict[1]), 0) + 1      # the generator did not return Ok: outside this property
+                gen_failed.add((cid, opt))
             elif kind == "syntax":
                 counts["syntax"] = counts.get("syntax", 0) + 1
                 modules[(cid, opt)] = ("syntax", [("syntax", sx(verdict[1])[:200], "")])
@@ -1056,7 +1088,13 @@ def extra_c01(pid, tier, seed, workdir, known, write_replay):
     items += sitems
     # the same modules as the REAL rustfmt prints them (option sets 96 + i: rustfmt on): the formatter path (pipe, fallback to the
     # unformatted tokens) must hand rustc a module it accepts whenever the prettyplease path does
-    fm_cases = write_stream_file([("fixtures",), ("gen", "unicode", seed, 8 * n), ("gen", "general", seed, 10 * n)], os.path.join(workdir, "c01fmt.cases"))
+    fm_cases = write_stream_file([("fixtures",), ("provoke",), ("gen", "unicode", seed, 8 * n), ("gen", "general", seed, 10 * n)], os.path.join(workdir, "c01fmt.cases"))
+    case_by_id_fm = {}
+    for l in open(fm_cases):
+        m = re.match(r'\(src "([^"]*)"', l)
+        if m:
+            case_by_id_fm[m.group(1)] = l.rstrip("\n")
+            case_by_id.setdefault(m.group(1), l.rstrip("\n"))
     fm_out = os.path.join(workdir, "c01fmt.out")
     subprocess.run([os.path.join(BIN, "batch"), "check", "--cases", fm_cases, "--opts", "96,116", "--out", fm_out], stdout=subprocess.PIPE, stderr=subprocess.STDOUT, text=True)
     nfm = 0
@@ -1067,12 +1105,23 @@ def extra_c01(pid, tier, seed, workdir, known, write_replay):
             t = parse_sexp(line)[0]
             cid, opt, verdict = sx(t[1]), int(t[2]), t[3]
             nfm += 1
-            if verdict == "ok" or verdict[0] in ("permitted", "gen"):
+            if verdict == "ok" or verdict[0] in ("permitted", "gen") or cid in naga_invalid:
                 continue
+            what = sx(verdict[1])[:200] if verdict[0] == "syntax" else "; ".join(sx(e[1])[:80] for e in verdict[1:3])
             off = modules.get((cid, opt - 96))
+            if off is None and (cid, opt - 96) in gen_failed:
+                # with rustfmt off the call does not return Ok (prettyplease panics on tokens that are no Rust file); with it on
+                # the call returns Ok - an accepted shader - and the text is what rustc rejects here
+                strs = re.findall(r'"([^"]*)"', case_by_id_fm.get(cid, ""))
+                src = re.sub(r"\\u\{([0-9a-fA-F]+)\}", lambda mm: chr(int(mm.group(1), 16)), strs[1]) if len(strs) > 1 else ""
+                kw = sorted(set(re.findall(r"[A-Za-z_][A-Za-z0-9_]*", src)) & RUST_KEYWORDS_WGSL_ALLOWS)
+                if kw:
+                    items.append(("rustc#keyword-identifier-with-rustfmt-on", f"option set {opt} (rustfmt on): the WGSL identifier(s) {kw} are Rust keywords; the call returns Ok with text rustc rejects ({what[:100]})", cid, True))
+                else:
+                    items.append(("rustc#rejected-only-with-rustfmt-on", f"option set {opt} (rustfmt on): the call returns Ok with text rustc rejects ({verdict[0]}: {what}) where the rustfmt-off call does not return at all", cid, True))
+                continue
             if off is None or off[0] not in ("ok", "permitted"):
                 continue        # rejected without the formatter as well: classified above
-            what = sx(verdict[1])[:200] if verdict[0] == "syntax" else "; ".join(sx(e[1])[:80] for e in verdict[1:3])
             items.append(("rustc#rejected-only-with-rustfmt-on", f"option set {opt} (rustfmt on): rustc rejects the module ({verdict[0]}: {what}) although it accepts the one generated with rustfmt off", cid, True))
     counts["modules_compiled_with_rustfmt_on"] = nfm
     if nfm == 0:
@@ -1107,6 +1156,12 @@ def extra_c01(pid, tier, seed, workdir, known, write_replay):
             "ruststatic_vs_rustc": scounts, "ruststatic_predictions": len(pred), "benign_hypotheses_hold": benign,
             "oracle": "cargo check of the real generated modules against wgpu 24.0.5, bytemuck 1.25 (derive), encase 0.10 (glam), glam 0.29, serde 1 (nalgebra is not in the offline registry: never compiled); "
                       "Ext.RustStatic (Lean) is evaluated on the facts of the same modules and held against rustc's verdict both ways"}, viol, kn, []
+
+
+# Rust keywords (strict and reserved, 2021 edition) that are not reserved words of WGSL
+RUST_KEYWORDS_WGSL_ALLOWS = {"box", "dyn", "in", "priv", "try", "gen", "abstract", "become", "do", "final", "macro", "typeof", "unsized", "virtual", "yield",
+                             "crate", "extern", "impl", "mod", "move", "mut", "pub", "ref", "Self", "self", "static", "super", "trait", "type", "unsafe", "use",
+                             "where", "async", "await", "match", "as", "enum"}
 
 
 def signature_of_static(detail):
